@@ -12,10 +12,17 @@ Correspondence (model `Driver/C21.lean` vs the real code, same inputs), four cas
                objects; only the mutant *execution* is replaced by a stub executor/controller that
                replays generated per-mutant result columns.
 
+* ``filter``   the real ``AssertionGenerator.__remove_non_holding_assertions`` on real
+               ``TestCase``/``ObjectAssertion`` objects and real ``ExecutionResult`` traces: several
+               assertions per statement, some reported failed and some errored (either order, both on
+               one statement), several filtering rounds.
+
 The oracle evaluates the property on the implementation's output without the model.  The history
 part (`extra_checks`) runs the real `MutationAnalysisAssertionGenerator` end to end on tiny modules
 with first- and higher-order mutant generators and re-executes every test on the unmutated module
-and on every mutant.
+and on every mutant; flaky modules (construction-counter dependent values, attributes that only the
+first-built objects have) go through the real `AssertionGenerator` (capture + filtering executions) and
+every kept assertion is re-executed on the unmutated module.
 """
 from __future__ import annotations
 
@@ -174,7 +181,7 @@ STRATEGIES = [("FIRST_ORDER_MUTANTS", 1), ("FIRST_TO_LAST", 2), ("EACH_CHOICE", 
 class C21(PropertyCheck):
     prop_id = "C21"
     prop_modules = ["PynguinModel.Props.C21"]
-    extra_modules = ["PynguinModel.Model.SetCover"]
+    extra_modules = ["PynguinModel.Model.SetCover", "PynguinModel.Model.AssertFilter"]
     driver = "Driver/C21.lean"
     n_quick = 6000
     n_thorough = 120000
@@ -182,12 +189,17 @@ class C21(PropertyCheck):
     rule = ("select: random kill maps (≤12×15 mostly, up to 40×60; empty sets, duplicate sets, ties, chains, "
             "greedy-suboptimal families, shuffled key order); score: random int triples; summary/pipeline: "
             "random per-test × per-mutant grids of real ExecutionResult objects (timeouts, failed/error "
-            "entries, test exceptions, skipped mutants, budget cut) through the real private methods; "
-            "non-trivial = select with ≥2 candidates, or a grid with a kill or a timeout")
+            "entries, test exceptions, skipped mutants, budget cut) through the real private methods; filter: "
+            "tests with 1-4 statements × 0-6 assertions and 1-3 filtering traces (failed and errored positions "
+            "on the same statement in either order, overlaps, empty sets, foreign statements; 4 % equal "
+            "assertions, 3 % positions outside the list) through the real __remove_non_holding_assertions; "
+            "non-trivial = select with ≥2 candidates, a grid with a kill or a timeout, or a filter trace that "
+            "reports a position")
     assumptions = [
         "assertions of one statement are pairwise distinct objects/values (list.remove by value = by position)",
         "kill-map keys are unique (Python dict); mutants are non-negative ints",
-        "history part: SUT modules are deterministic and stateless across executions",
+        "history part: SUT modules of the mutation runs are deterministic and stateless across executions; the "
+        "flaky modules differ between the capture execution and every later execution, never among later ones",
     ]
     trusted_base_extra = [
         "mutant execution itself (CPython, TestCaseExecutor threads) is exercised by the history runs, not modelled",
@@ -198,13 +210,65 @@ class C21(PropertyCheck):
     # ------------------------------------------------------------------------------------------
     def gen_case(self, rng):
         x = rng.random()
-        if x < 0.58:
+        if x < 0.50:
             return self._gen_select(rng)
-        if x < 0.66:
+        if x < 0.57:
             return self._gen_score(rng)
-        if x < 0.78:
+        if x < 0.68:
             return self._gen_summary(rng)
+        if x < 0.82:
+            return self._gen_filter(rng)
         return self._gen_pipeline(rng)
+
+    def _gen_filter(self, rng):
+        """A test (assertion ids per statement) + the traces of 1-3 filtering executions.  Positions of a
+        round refer to the assertion lists as the previous round left them (as a real execution would)."""
+        n_st = rng.randint(1, 4)
+        aid = 0
+        test = []
+        dup = rng.random() < 0.04  # equal assertions on one statement (outside the stated assumption)
+        for _ in range(n_st):
+            k = rng.randint(0, 6)
+            st = list(range(aid, aid + k))
+            aid += k
+            if dup and k >= 2 and rng.random() < 0.6:
+                st[rng.randrange(k)] = st[rng.randrange(k)]
+            test.append(st)
+        cur = [len(st) for st in test]
+        oob = rng.random() < 0.03  # a position outside the list (never produced by an execution)
+        rounds = []
+        for _ in range(rng.choice([1, 1, 1, 2, 2, 3])):
+            style = rng.choice(["both", "both", "both", "failed", "error", "overlap", "sparse"])
+            failed, error = [], []
+            order = list(range(n_st))
+            rng.shuffle(order)
+            for s in order:
+                n = cur[s]
+                if n == 0 or rng.random() < (0.6 if style == "sparse" else 0.2):
+                    continue
+                pos = list(range(n))
+                rng.shuffle(pos)
+                nf = rng.randint(0 if style != "both" else 1, max(1, n // 2))
+                ne = rng.randint(0 if style != "both" else 1, max(1, n // 2))
+                f, e = pos[:nf], pos[nf:nf + ne]
+                if style == "failed":
+                    e = []
+                elif style == "error":
+                    f = []
+                elif style == "overlap" and f:
+                    e = e + [rng.choice(f)]
+                if oob and rng.random() < 0.5:
+                    (f if rng.random() < 0.5 else e).append(n + rng.randint(0, 1))
+                if f or rng.random() < 0.1:
+                    failed.append([s, f])
+                if e or rng.random() < 0.1:
+                    error.append([s, e])
+                cur[s] = max(0, n - len(set(f) | set(e)))
+            if rng.random() < 0.1:  # an entry for a statement the test does not have
+                (failed if rng.random() < 0.5 else error).append([n_st + rng.randint(0, 1), [0]])
+            rounds.append({"failed": failed, "error": error})
+        self.count("filter:" + ("dup" if dup else "oob" if oob else "plain"))
+        return {"kind": "filter", "test": test, "rounds": rounds}
 
     def _gen_select(self, rng):
         big = rng.random() < 0.04
@@ -387,7 +451,48 @@ class C21(PropertyCheck):
                 return self._summary_out(fn(case["n"], rows))
             except ValueError:
                 return {"err": "ValueError"}
+        if kind == "filter":
+            return self._impl_filter(case)
         return self._impl_pipeline(case)
+
+    def _impl_filter(self, case):
+        import libcst as cst
+        import pynguin.assertion.assertion as ass
+        import pynguin.assertion.assertiongenerator as ag
+        import pynguin.testcase.execution as ex
+        import pynguin.testcase.testcase as tc
+
+        fn = ag.AssertionGenerator._AssertionGenerator__remove_non_holding_assertions
+        t = tc.TestCase()
+        ids = {}
+        for i, st_ids in enumerate(case["test"]):
+            node = cst.parse_module(f"v{i} = {i}\n").body[0]
+            st = tc.Statement(node=node, bound_variable=f"v{i}", bound_type=int)
+            for aid in st_ids:
+                a = ass.ObjectAssertion(f"v{i}", aid)  # equal ids = equal assertions (list.remove is by value)
+                ids[id(a)] = aid
+                st.assertions.append(a)
+            t.add_statement(st)
+        keepalive = [a for s in t.statements() for a in s.assertions]
+        out = []
+        for rd in case["rounds"]:
+            r = ex.ExecutionResult()
+            for s, xs in rd["failed"]:
+                r.assertion_verification_trace.failed[s].update(xs)
+            for s, xs in rd["error"]:
+                r.assertion_verification_trace.error[s].update(xs)
+            if any(len(v) >= 1 for v in r.assertion_verification_trace.failed.values()) and any(
+                    len(v) >= 1 for v in r.assertion_verification_trace.error.values()):
+                self.count("filter:round-with-failed-and-error")
+            try:
+                fn(t, r)
+            except (KeyError, ValueError):
+                return {"err": "remove"}
+            except IndexError:
+                return {"err": "IndexError"}
+            out.append([[ids[id(a)] for a in s.assertions] for s in t.statements()])
+        del keepalive
+        return {"rounds": out}
 
     @staticmethod
     def _greedy_picks(km):
@@ -501,6 +606,10 @@ class C21(PropertyCheck):
         if kind == "summary":
             return vcommon.jdump({"summary": {"n": case["n"], "rows": [[self._obs(d) for d in row]
                                                                        for row in case["rows"]]}})
+        if kind == "filter":
+            return vcommon.jdump({"filter": {"test": case["test"],
+                                             "rounds": [{"failed": self._dict(rd["failed"]),
+                                                         "error": self._dict(rd["error"])} for rd in case["rounds"]]}})
         stream = [] if case["budget0"] else case["stream"]
         cols = []
         for c in stream:
@@ -570,6 +679,8 @@ class C21(PropertyCheck):
             return fs
         if "err" in io:
             return fs
+        if kind == "filter":
+            return self._oracle_filter(case, io)
         if kind == "summary":
             cols = [[row[j] for row in case["rows"]] for j in range(case["n"])]
             fs += self._oracle_score(cols, io, "summary")
@@ -603,6 +714,42 @@ class C21(PropertyCheck):
         return fs
 
     @staticmethod
+    def _oracle_filter(case, io):
+        """After a filtering execution no assertion the execution reported as failed or errored is left on
+        the test (a kept assertion has to hold), and nothing is left that was not there before.  Judged
+        round by round from the implementation's own lists; only for traces an execution can produce
+        (positions inside the lists) and pairwise distinct assertions (the stated assumption)."""
+        fs = []
+        before = case["test"]
+        for ri, (rd, after) in enumerate(zip(case["rounds"], io["rounds"])):
+            if any(len(set(st)) != len(st) for st in before):
+                break
+            rep = {}
+            for fld in ("failed", "error"):
+                for s, xs in rd[fld]:
+                    if s < len(before):
+                        for x in xs:
+                            rep.setdefault(s, {}).setdefault(x, fld)
+            if any(x >= len(before[s]) for s, xs in rep.items() for x in xs):
+                break
+            for s, st in enumerate(before):
+                kept = after[s]
+                if len(set(kept)) != len(kept) or not set(kept) <= set(st):
+                    fs.append(Failure({"kind": "filter", "class": "not-a-subset"},
+                                      f"round {ri} stmt {s}: kept {kept} is not a subset of {st}"))
+                    continue
+                bad = [(p, st[p], fld) for p, fld in sorted(rep.get(s, {}).items()) if st[p] in kept]
+                if bad:
+                    both = len(set(rep[s].values())) == 2
+                    fs.append(Failure({"kind": "filter", "class": "kept-assertion-does-not-hold",
+                                       "stmt-has-failed-and-error": both},
+                                      f"round {ri} stmt {s}: assertions {st}, execution reported "
+                                      f"{sorted(rep[s].items())}; still on the test afterwards (position, id, "
+                                      f"how): {bad}; kept {kept}"))
+            before = after
+        return fs
+
+    @staticmethod
     def _timed_out_columns(cols):
         """A mutant is timed out when some test execution on it timed out."""
         return {j for j, col in enumerate(cols) if any(d is not None and d["timeout"] for d in col)}
@@ -632,6 +779,9 @@ class C21(PropertyCheck):
             return None
         if "err" in io:
             return None
+        if kind == "filter":
+            return vcommon.jdump(case) if any(xs for rd in case["rounds"] for fld in ("failed", "error")
+                                              for _, xs in rd[fld]) else None
         if io["killed"] or io["timeout"]:
             return vcommon.jdump(case)
         return None
@@ -654,10 +804,12 @@ class C21(PropertyCheck):
                     f.write(textwrap.dedent(src).lstrip())
             for (name, strategy, order, minimize) in runs:
                 fs += self._history_run(name, strategy, order, minimize)
+            for k in range(3 if self.tier == "quick" else 12):
+                fs += self._flaky_run(tmp, k)
         finally:
             plog.setLevel(saved_level)
             sys.path.remove(tmp)
-            for name in SUTS:
+            for name in list(SUTS) + [f"c21_flaky_{k}" for k in range(12)]:
                 sys.modules.pop(name, None)
             shutil.rmtree(tmp, ignore_errors=True)
         return fs
@@ -816,6 +968,138 @@ class C21(PropertyCheck):
         finally:
             (config.configuration.module_name, out_cfg.assertion_minimization, out_cfg.mutation_strategy,
              out_cfg.mutation_order, config.configuration.seeding.seed) = saved
+            sys.modules.pop(name, None)
+        return fs
+
+    # ------------------------------------------------------------------------------------------
+    # history part: flaky modules through the real AssertionGenerator (capture + filtering executions)
+    # ------------------------------------------------------------------------------------------
+    def _flaky_source(self, k):
+        """A module whose objects differ between the capture execution (the first `n_first` constructions)
+        and every later execution: `fail` attributes have another value later (the assertion fails
+        cleanly), `error` attributes do not exist later (evaluating the assertion raises AttributeError),
+        `stable` attributes never change.  Returns (source, attribute kinds, tests)."""
+        import random
+        rng = random.Random(7919 * (self.seed + 1) + k)
+        if k == 0:
+            kinds = ["stable", "fail", "stable", "error", "stable"]        # errored behind failed
+        elif k == 1:
+            kinds = ["error", "stable", "fail", "fail", "stable", "error"]  # errored before failed, then behind
+        else:
+            kinds = [rng.choice(["stable", "fail", "error"]) for _ in range(rng.randint(3, 7))]
+            kinds += ["fail", "error"]
+            rng.shuffle(kinds)
+        two = k % 2 == 1  # two constructions per capture run
+        n_first = 2 if two else 1
+        body = []
+        for i, kind in enumerate(kinds):
+            if kind == "stable":
+                body.append(f"self.a{i} = " + rng.choice(["gain", "'mV'", "True", "gain + 7", str(i)]))
+            elif kind == "fail":
+                body.append(f"self.a{i} = " + rng.choice(["_created", "_created * 3", "'s' + str(_created)",
+                                                         "_created + gain"]))
+            else:
+                body.append(f"if _created <= {n_first}:\n            self.a{i} = " + rng.choice(["True", "gain", "'w'"]))
+        src = ("_created = 0\n\n\nclass Probe:\n    def __init__(self, gain: int):\n        global _created\n"
+               "        _created += 1\n        " + "\n        ".join(body) + "\n\n"
+               "    def read(self, raw: int) -> int:\n        return raw * 2 + _created * 0\n\n\n"
+               "def stamp(x: int) -> int:\n    return x + _created\n")
+        t0 = [("int_0", "4", int), ("probe_0", "M.Probe(int_0)", None), ("int_1", "5", int),
+              ("int_2", "probe_0.read(int_1)", int)]
+        if two:
+            t0 += [("probe_1", "M.Probe(int_1)", None), ("int_3", "M.stamp(int_1)", int)]
+        return src, kinds, [t0]
+
+    def _flaky_run(self, tmp, k):
+        import libcst as cst
+        import pynguin.assertion.assertiongenerator as ag
+        import pynguin.assertion.assertiontraceobserver as ato
+        import pynguin.configuration as config
+        import pynguin.ga.testcasechromosome as tcc
+        import pynguin.ga.testsuitechromosome as tsc
+        import pynguin.testcase.testcase as tc
+        from pynguin.instrumentation.machinery import install_import_hook
+        from pynguin.instrumentation.tracer import SubjectProperties
+        from pynguin.testcase.execution import TestCaseExecutor
+        from pynguin.utils import randomness
+        from pynguin.utils.naming import get_module_alias
+
+        name = f"c21_flaky_{k}"
+        src, kinds, specs = self._flaky_source(k)
+        with open(os.path.join(tmp, name + ".py"), "w") as f:
+            f.write(src)
+        executions = 1 + k % 2
+        tag = f"{name}/AssertionGenerator/filtering_executions={executions}/attrs={','.join(kinds)}"
+        fs = []
+        saved = (config.configuration.module_name, config.configuration.seeding.seed)
+        config.configuration.module_name = name
+        randomness.RNG.seed(2000 + self.seed + k)
+        alias = get_module_alias(name)
+        sp = SubjectProperties()
+        try:
+            with install_import_hook(name, sp):
+                with sp.instrumentation_tracer:
+                    sys.modules.pop(name, None)
+                    importlib.import_module(name)
+                tests = []
+                for spec in specs:
+                    t = tc.TestCase()
+                    for var, rhs, typ in spec:
+                        node = cst.parse_module(f"{var} = {rhs.replace('M.', alias + '.')}\n").body[0]
+                        t.add_statement(tc.Statement(node=node, bound_variable=var, bound_type=typ))
+                    tests.append(t)
+                suite = tsc.TestSuiteChromosome()
+                for t in tests:
+                    suite.add_test_case_chromosome(tcc.TestCaseChromosome(t))
+                plain = TestCaseExecutor(sp)
+                full = {}
+                g = ag.AssertionGenerator(plain, executions)
+                orig_for = g._add_assertions_for
+
+                def recording_for(test_case, result):
+                    orig_for(test_case, result)
+                    full[id(test_case)] = [len(s.assertions) for s in test_case.statements()]
+
+                g._add_assertions_for = recording_for
+                raised = None
+                try:
+                    suite.accept(g)
+                except (IndexError, KeyError, ValueError) as e:  # the test keeps whatever was on it
+                    raised = e
+                n_full = sum(sum(v) for v in full.values())
+                n_kept = sum(len(s.assertions) for t in tests for s in t.statements())
+                self.count("history:flaky-runs")
+                self.count("history:flaky-assertions-captured", n_full)
+                self.count("history:flaky-assertions-filtered-out", n_full - n_kept)
+                check = TestCaseExecutor(sp)
+                check.add_remote_observer(ato.RemoteAssertionVerificationObserver())
+                for rerun in range(2):
+                    for ti, t in enumerate(tests):
+                        res = check.execute(t)
+                        for _ in range(2):
+                            if res.timeout:
+                                res = check.execute(t)
+                        if res.timeout:
+                            raise RuntimeError(f"{tag}: test {ti} times out on the unmutated module (machine load?)")
+                        tr = res.assertion_verification_trace
+                        bad = {fld: {s: list(v) for s, v in d.items() if len(v)}
+                               for fld, d in (("failed", tr.failed), ("error", tr.error))}
+                        if bad["failed"] or bad["error"]:
+                            fs.append(Failure({"kind": "history", "class": "kept-assertion-fails-on-original",
+                                               "flaky-module": True},
+                                              f"{tag}: test {ti} re-executed (run {rerun}) on the unmutated module: "
+                                              f"violated {bad}; kept per statement "
+                                              f"{[len(s.assertions) for s in t.statements()]} of "
+                                              f"{full.get(id(t))} captured"
+                                              + (f"; filtering raised {type(raised).__name__}" if raised else ""),
+                                              case={"run": tag, "test": ti, "module": src}))
+                            break
+                    if fs:
+                        break
+                if raised is not None and not fs:
+                    raise raised
+        finally:
+            config.configuration.module_name, config.configuration.seeding.seed = saved
             sys.modules.pop(name, None)
         return fs
 
